@@ -25,6 +25,48 @@ from .interp import ImpliesV, Interp, Obligation, QFact, ForallV, ExistsV, explo
 TrackingHeap = core.Heap
 
 
+def _deep_snapshot(env):
+    """structural copy of a contract-built environment (objects of concrete shape, lists, dicts, local arrays), preserving sharing"""
+    from .interp import PyObjV
+
+    memo = {}
+
+    def cp(v):
+        if id(v) in memo:
+            return memo[id(v)]
+        if isinstance(v, PyObjV):
+            o = PyObjV(v.cls, v.module, {})
+            memo[id(v)] = o
+            o.fields = {k: cp(x) for k, x in v.fields.items()}
+            return o
+        if isinstance(v, list):
+            o = []
+            memo[id(v)] = o
+            o.extend(cp(x) for x in v)
+            return o
+        if isinstance(v, dict):
+            o = {}
+            memo[id(v)] = o
+            for k, x in v.items():
+                o[k] = cp(x)
+            return o
+        if isinstance(v, tuple):
+            return tuple(cp(x) for x in v)
+        if isinstance(v, set):
+            return set(v)
+        if isinstance(v, LArr):
+            o = v.snapshot()
+            memo[id(v)] = o
+            return o
+        if isinstance(v, LArr2):
+            o = LArr2(v.nr, v.nc, v.get)
+            memo[id(v)] = o
+            return o
+        return v
+
+    return {k: cp(v) for k, v in env.items()}
+
+
 def make_param(it, name, kind):
     if kind == "int":
         return z3.Int(name)
@@ -274,6 +316,16 @@ def verify_function(qualname, contract, schema, timeout_ms=10000, contracts=None
     path_no = [0]
     body_stmts = fi.body()
     frag = contract.get("fragment")
+    frag_loop = None
+    if frag is not None and "before" in frag:
+        # the contract is on the head of the function: every top-level statement before the one whose source text starts with the
+        # given text (the function's parameters are the contract's parameters; locals assigned by the head are visible to clauses)
+        idx = [i for i, st in enumerate(body_stmts) if ast.unparse(st).replace('"', "'").startswith(frag["before"].replace('"', "'"))]
+        if len(idx) != 1:
+            raise Unsupported("fragment: %d top-level statements start with %r in %s" % (len(idx), frag["before"], qualname))
+        rep.fragment = "statements before line %d (`%s ...`)" % (body_stmts[idx[0]].lineno, frag["before"][:40])
+        body_stmts = body_stmts[: idx[0]]
+        frag = None
     if frag is not None and "after" in frag:
         # the contract is on the tail of the function: every top-level statement after the one whose source text starts with
         # the given text (the variables bound before it are contract parameters)
@@ -286,14 +338,20 @@ def verify_function(qualname, contract, schema, timeout_ms=10000, contracts=None
     if frag is not None:
         # the contract is on a loop body: the statements of the `for` whose iterable has the given source text, executed
         # for an arbitrary element (the loop variable is a contract parameter)
-        hits = [n for n in ast.walk(fi.node) if isinstance(n, ast.For) and ast.unparse(n.iter).replace('"', "'") == frag["iter"].replace('"', "'")]
+        if "iter" in frag:
+            hits = [n for n in ast.walk(fi.node) if isinstance(n, ast.For) and ast.unparse(n.iter).replace('"', "'") == frag["iter"].replace('"', "'")]
+        else:
+            # the loop is identified by what its body does; its iterable is then an OBJECT of the contract (`iter_range`)
+            hits = [n for n in ast.walk(fi.node) if isinstance(n, ast.For)]
+            frag = dict(frag, iter="<any>")
         if frag.get("body_contains"):
             # several loops over the same iterable: the one whose body mentions the given text
             hits = [n for n in hits if frag["body_contains"] in "\n".join(ast.unparse(b) for b in n.body)]
         if len(hits) != 1:
             raise Unsupported("fragment: %d loops over %s in %s" % (len(hits), frag["iter"], qualname))
         body_stmts = hits[0].body
-        rep.fragment = "body of `for %s in %s` (line %d)" % (ast.unparse(hits[0].target), frag["iter"], hits[0].lineno)
+        frag_loop = hits[0]
+        rep.fragment = "body of `for %s in %s` (line %d)" % (ast.unparse(hits[0].target), ast.unparse(hits[0].iter), hits[0].lineno)
         if frag.get("stmt"):
             # one statement of that loop body: the one whose source text starts with the given text
             sel = [st for st in body_stmts if ast.unparse(st).replace('"', "'").startswith(frag["stmt"].replace('"', "'"))]
@@ -359,10 +417,34 @@ def verify_function(qualname, contract, schema, timeout_ms=10000, contracts=None
         entry = (list(it.facts), list(it.pc), list(it.qfacts))
         old_heap = it.heap.copy()
         old_env = {k: (v.snapshot() if isinstance(v, LArr) else v) for k, v in env.items()}  # arrays passed in may be mutated in place
+        # contract-built objects of concrete shape are mutated in place by the execution: the replay needs their ENTRY state
+        entry_env = _deep_snapshot(env) if "make_env" in contract else old_env
+        it.replay_env = entry_env
         it.live_env = env
         it.heap.touched = set()
         out = PathOutcome()
         body_env = dict(env)
+        if frag_loop is not None and contract["fragment"].get("iter_range"):
+            # the loop's iterable, evaluated in the contract's pre-state, must be the integer range the contract states (whatever
+            # its source text): first index and stop index are obligations of the fragment
+            spec = contract["fragment"]["iter_range"]
+            it.definedness = False
+            rv = it.eval(frag_loop.iter, dict(env))
+            it.definedness = True
+            if isinstance(rv, range):
+                if rv.step != 1:
+                    raise Unsupported("iter_range: a range with a step")
+                first, stop = rv.start, rv.stop
+            elif isinstance(rv, MapSeq):
+                first = rv.get(z3.IntVal(0))
+                stop = to_z3num(first) + to_z3num(rv.n)
+            else:
+                raise Unsupported("iter_range: the iterable of the loop is not an integer range (%r)" % (rv,))
+            it.spec_mode = True
+            want_first, want_stop = it.eval(parse_expr(spec["first"]), dict(env)), it.eval(parse_expr(spec["stop"]), dict(env))
+            it.spec_mode = False
+            it.oblige("post", "%s/first" % spec["label"], to_z3num(first) == to_z3num(want_first), frag_loop.lineno, "the loop `for %s in %s` starts at %s" % (ast.unparse(frag_loop.target), ast.unparse(frag_loop.iter), spec["first"]))
+            it.oblige("post", "%s/stop" % spec["label"], to_z3num(stop) == to_z3num(want_stop), frag_loop.lineno, "the loop `for %s in %s` stops before %s" % (ast.unparse(frag_loop.target), ast.unparse(frag_loop.iter), spec["stop"]))
         try:
             it.exec_block(body_stmts, body_env)
             out.kind = "return"
@@ -432,7 +514,7 @@ def verify_function(qualname, contract, schema, timeout_ms=10000, contracts=None
         it.old_state = (old_heap, old_env)
         if out.kind == "abort":
             for ob in it.obligations:
-                ob.replay_ctx = (fi, old_env, it._mro)
+                ob.replay_ctx = (fi, getattr(it, 'replay_env', old_env), it._mro)
                 ob.entry = entry_state
             return it.obligations, out
         if out.kind == "return":
@@ -491,7 +573,7 @@ def verify_function(qualname, contract, schema, timeout_ms=10000, contracts=None
         it.oblige("cover", "cover/%s" % pid, False, None, "path assumptions must be satisfiable (expected: refuted)")
         rep.assumptions |= it.assumptions_log
         for ob in it.obligations:
-            ob.replay_ctx = (fi, old_env, it._mro)
+            ob.replay_ctx = (fi, getattr(it, 'replay_env', old_env), it._mro)
             ob.entry = entry_state
         return it.obligations, out
 
